@@ -46,6 +46,8 @@ type Task struct {
 	Site int
 	// InOp is maintained by the engines: >0 while the task is inside an operation under test.
 	InOp int
+	// Steps counts the scheduling points this task passed.
+	Steps int64
 }
 
 type killSentinel struct{}
@@ -97,6 +99,7 @@ func (s *Sched) Yield(site int) {
 		return
 	}
 	s.Steps++
+	t.Steps++
 	s.digest = (s.digest ^ uint64(site+2) ^ uint64(t.ID)<<32) * 0x100000001b3
 	t.Site = site
 	t.budget--
